@@ -54,6 +54,32 @@ func itemEnd(b []byte, off int) int {
 
 // mapHasTaggedKey reports whether the map item at off has a key that is a tagged item; it also
 // descends into countersignature values (labels 7 and 11: arrays [bstr protected, map, bstr] or lists of them).
+//
+// With walkValues set it also reports the self-described tag (55799) at any depth in the value of a
+// label the library type-checks (every label when walkAll is set — COSE_Keys): the CBOR library
+// strips that tag wherever it stands, so the checked value is not what the wire holds.  A 55799
+// inside the value of a label the library does not interpret is data and is not reported.
+var walkValues, walkAll bool
+
+func checkedLabel(b []byte, off int) bool {
+	major, n, _, ok := rdHead(b, off)
+	if !ok || major != 0 {
+		return false
+	}
+	switch n {
+	case 1, 2, 3, 4, 5, 6, 7, 9, 11, 12, 16, 258, 259, 260:
+		return true
+	}
+	return false
+}
+
+// strippedTagWhereChecked: acceptedWithTaggedLabel extended to type-checked values
+func strippedTagWhereChecked(kind string, data []byte) bool {
+	walkValues, walkAll = true, kind == "key"
+	defer func() { walkValues, walkAll = false, false }()
+	return acceptedWithTaggedLabel(kind, data)
+}
+
 func mapHasTaggedKey(b []byte, off int) bool {
 	if off >= len(b) || b[off]>>5 != 5 {
 		return false
@@ -86,6 +112,9 @@ func mapHasTaggedKey(b []byte, off int) bool {
 			return false
 		}
 		if (b[key] == 0x07 || b[key] == 0x0b) && sigHasTaggedKey(b, v) {
+			return true
+		}
+		if walkValues && (walkAll || checkedLabel(b, key)) && has55799(b[:end], v) {
 			return true
 		}
 		p = end
@@ -140,6 +169,10 @@ func acceptedWithTaggedLabel(kind string, data []byte) bool {
 	off := 0
 	switch kind {
 	case "key":
+		// a COSE_Key is a map item: a tag around it (which the CBOR library looks through) is not
+		if len(data) > 0 && data[0]>>5 == 6 {
+			return true
+		}
 		return mapHasTaggedKey(data, 0)
 	case "ph":
 		return bstrMapHasTaggedKey(data, 0)
@@ -471,4 +504,34 @@ func structureOfAccepted(kind string, data []byte) string {
 		return "signature is not a non-empty byte string"
 	}
 	return ""
+}
+
+// has55799 reports whether the item at off contains the self-described CBOR tag (55799) at any
+// depth of its arrays, maps and tags (byte strings are not looked into)
+func has55799(b []byte, off int) bool {
+	major, n, p, ok := rdHead(b, off)
+	if !ok {
+		return false
+	}
+	switch major {
+	case 6:
+		if n == 55799 {
+			return true
+		}
+		return has55799(b, p)
+	case 4, 5:
+		cnt := n
+		if major == 5 {
+			cnt *= 2
+		}
+		for i := uint64(0); i < cnt; i++ {
+			if has55799(b, p) {
+				return true
+			}
+			if p = itemEnd(b, p); p < 0 {
+				return false
+			}
+		}
+	}
+	return false
 }
